@@ -19,12 +19,12 @@ const MAX_LEN: usize = 16_777_215;
 
 const DEPTHS_QUICK: [usize; 7] = [1, 10, 100, 1_000, 10_000, 100_000, 1_000_000];
 const DEPTHS_THOROUGH: [usize; 9] = [1, 10, 100, 1_000, 10_000, 100_000, 1_000_000, 2_000_000, MAX_LEN / 5];
-const KINDS: usize = 12;
+const KINDS: usize = 13;
 const RUN_BYTES: [u8; 12] = [0x09, 0x00, 0x01, 0x02, 0x03, 0x05, 0x06, 0x08, 0x0A, 0x0B, 0x0C, 0xFF];
 const RUN_LENS: [usize; 3] = [20_000, 1_000_000, 16_777_215];
 
 fn kind_name(kind: usize) -> &'static str {
-    ["nested-strict-arrays", "nested-objects-closed", "nested-objects-unclosed", "nested-ecma-arrays", "mixed-nesting", "nested-arrays-inside-valid-prefix", "array-of-arrays-wide-and-deep", "nested-objects-long-names", "nested-arrays-count-max", "nested-objects-empty-names", "nested-ecma-arrays-empty-names", "mixed-nesting-with-empty-names"][kind]
+    ["nested-strict-arrays", "nested-objects-closed", "nested-objects-unclosed", "nested-ecma-arrays", "mixed-nesting", "nested-arrays-inside-valid-prefix", "array-of-arrays-wide-and-deep", "nested-objects-long-names", "nested-arrays-count-max", "nested-objects-empty-names", "nested-ecma-arrays-empty-names", "mixed-nesting-with-empty-names", "nested-arrays-beside-an-array-closed-early-by-09"][kind]
 }
 
 /// nesting input of `n` levels (truncated to the 16 MiB message limit)
@@ -115,6 +115,14 @@ fn build_nested(kind: usize, n: usize) -> Vec<u8> {
             let n = n.min(MAX_LEN / 7);
             for _ in 0..n {
                 v.extend_from_slice(&[0x08, 0, 0, 0, 1, 0, 0]);
+            }
+        }
+        12 => {
+            // each level: an array of two - a one-element array that an object-end marker closes
+            // early, then the next level (whatever closing a level does, it does once)
+            let n = n.min(MAX_LEN / 11);
+            for _ in 0..n {
+                v.extend_from_slice(&[0x0A, 0, 0, 0, 2, 0x0A, 0, 0, 0, 1, 0x09]);
             }
         }
         _ => {
@@ -588,7 +596,7 @@ impl Check for C14 {
         decode_on_small_stack(input, routes(rng.below(3)), &what, out);
     }
     fn rule(&self) -> String {
-        "each input is decoded on a spawned thread with a 2 MiB stack inside a supervised worker, by one of three routes (rml_amf0::deserialize; MessagePayload{type 20/18/17/15}::to_rtmp_message; a ServerSession receiving it as one type-20 message). Mandatory ladder: 12 nesting kinds (strict arrays, closed and unclosed objects, ECMA arrays, mixed, after a valid command prefix, wide-and-deep, long names, arrays with count 2^32-1, objects / ECMA arrays / a mix nested through properties with an empty name) x depths {1,10,100,10^3,10^4,10^5,10^6; thorough adds 2*10^6 and 3,355,443 = 16,777,215/5} x 3 routes; every marker byte 0x00-0x13, 0x20, 0x7F, 0x80, 0xFF followed by a declared length or count (u16 {0xFFFF, 0x8000, 0x0100}, u32 {2^32-1, 2^31-1, 2^24, 2^24-1, 2^24-2, 2^23, 2^20, 2^16}) with 0 or 16 bytes behind it, at top level, as a property value and as an array element, plus property names and strings of 2-164 bytes built from 2-, 3- and 4-byte characters at every alignment with the value missing, cut short or replaced by an object end (2,592 inputs x 3 routes); 20 count/length inputs (among them 131,072 / 2 M empty ECMA arrays, 262,144 empty objects, one-property containers by the megabyte, a chain of 40 arrays each holding two back-references to its predecessor) (counts 2^31-1 and 2^32-1 with little or no data, declared 65535-byte strings and names with nothing behind, 16,777,215 one-byte values) x 3 routes; runs of 20,000 / 10^6 / 16,777,215 copies of one byte for each marker value, object-end 09, 0B, 0C and FF, x 3 routes; then random, mutated and marker-biased inputs. distinct = (kind, depth, route).".to_string()
+        "each input is decoded on a spawned thread with a 2 MiB stack inside a supervised worker, by one of three routes (rml_amf0::deserialize; MessagePayload{type 20/18/17/15}::to_rtmp_message; a ServerSession receiving it as one type-20 message). Mandatory ladder: 13 nesting kinds (strict arrays, closed and unclosed objects, ECMA arrays, mixed, after a valid command prefix, wide-and-deep, long names, arrays with count 2^32-1, objects / ECMA arrays / a mix nested through properties with an empty name; arrays each beside a sibling array closed early by an object-end marker) x depths {1,10,100,10^3,10^4,10^5,10^6; thorough adds 2*10^6 and 3,355,443 = 16,777,215/5} x 3 routes; every marker byte 0x00-0x13, 0x20, 0x7F, 0x80, 0xFF followed by a declared length or count (u16 {0xFFFF, 0x8000, 0x0100}, u32 {2^32-1, 2^31-1, 2^24, 2^24-1, 2^24-2, 2^23, 2^20, 2^16}) with 0 or 16 bytes behind it, at top level, as a property value and as an array element, plus property names and strings of 2-164 bytes built from 2-, 3- and 4-byte characters at every alignment with the value missing, cut short or replaced by an object end (2,592 inputs x 3 routes); 20 count/length inputs (among them 131,072 / 2 M empty ECMA arrays, 262,144 empty objects, one-property containers by the megabyte, a chain of 40 arrays each holding two back-references to its predecessor) (counts 2^31-1 and 2^32-1 with little or no data, declared 65535-byte strings and names with nothing behind, 16,777,215 one-byte values) x 3 routes; runs of 20,000 / 10^6 / 16,777,215 copies of one byte for each marker value, object-end 09, 0B, 0C and FF, x 3 routes; then random, mutated and marker-biased inputs. distinct = (kind, depth, route).".to_string()
     }
     fn assumptions(&self) -> Vec<String> {
         vec![
